@@ -819,10 +819,7 @@ func (r *ref) call(at any, name string, args []any) any {
 		v1 := r.evalArg(at, args[1])
 		switch tv := v0.(type) {
 		case []any:
-			switch v1.(type) {
-			case []any, map[string]any:
-				unspec("include of a container member")
-			}
+			// the description says "includes": by value for containers as well (equal is by value)
 			for _, m := range tv {
 				if refEqual(m, v1) {
 					// 1 and 1.0: equal by value, not identical
